@@ -512,6 +512,13 @@ class Ctx:
                 "trusted_base": ["Lean 4.33.0 kernel", "axioms: propext, Classical.choice, Quot.sound only",
                                  "Mathlib v4.33.0 (kernel-checked lemmas)",
                                  "harness/*.py correspondence + oracle, lean/MenpoModel/Drive/*.lean parsing glue"]
+                                + (["source-to-Lean translator: harness/py2lean*.py and the rule tables / vocabulary of "
+                                    "harness/trans_%s*.py + lean/MenpoModel/Core/%sSrc*.lean (a rule that mistranslates an "
+                                    "expression makes the obligation speak about something else; the translation is value "
+                                    "level: .copy(), copy= flags, in-place vs rebinding and object identity are NOT visible "
+                                    "to it - aliasing / non-mutation clauses are decided by the oracle's digests and the "
+                                    "measured write tables)" % (self.prop.lower(), self.prop)]
+                                   if os.path.exists(os.path.join(HARNESS, "trans_%s.py" % self.prop.lower())) else [])
                                 + list(self.trusted),
                 "theorems": {k: v for k, v in sorted(self.theorems.items())},
                 "generated_obligations": self.gen_obligations,
@@ -551,6 +558,21 @@ def build_generated(ctx, files, targets, n_obligations):
     if not ok:
         errs = [l for l in out.splitlines() if "error" in l][:12]
         ctx.broken_obligations.append({"targets": list(targets), "errors": errs, "output_tail": out[-2500:]})
+        return ok
+    # the regenerated obligations are part of the proof: nothing in their import closure may contain sorry / axiom /
+    # native_decide ... (a `sorry` only makes lake print a warning).  In a file written at run time it is a broken
+    # obligation (what /repo says now made the translator emit it); in a hand-written file it is an infrastructure error.
+    hits = forbidden_scan(list(targets))
+    if hits:
+        gen = [h for h in hits if any(h.startswith(os.path.join("lean", rel) + ":") for rel in files)]
+        hand = [h for h in hits if h not in gen]
+        if hand:
+            raise Infra("forbidden construct in the Lean sources of the regenerated obligations:\n" + "\n".join(hand))
+        ctx.broken_obligations.append({"targets": list(targets), "errors": gen[:12],
+                                       "output_tail": "forbidden construct in a generated file"})
+        return False
+    ctx.notes.setdefault("generated_targets_scanned", [])
+    ctx.notes["generated_targets_scanned"] = sorted(set(ctx.notes["generated_targets_scanned"]) | set(targets))
     return ok
 
 
